@@ -437,6 +437,9 @@ spif_mbuff_cmp(spif_mbuff_t self, spif_mbuff_t other)
 
     SPIF_OBJ_COMP_CHECK_NULL(self, other);
     c = memcmp(SPIF_MBUFF_BUFF(self), SPIF_MBUFF_BUFF(other), MIN(self->len, other->len));
+    if (c == 0) {
+        c = (self->len < other->len) ? (-1) : ((self->len > other->len) ? (1) : (0));
+    }
     return SPIF_CMP_FROM_INT(c);
 }
 
